@@ -414,8 +414,8 @@ impl Parse for FmtArgument {
             alias: (input.peek(syn::Ident)
                 && input.peek2(token::Eq)
                 && !input.peek2(token::EqEq))
-                .then(|| Ok::<_, syn::Error>((input.parse()?, input.parse()?)))
-                .transpose()?,
+            .then(|| Ok::<_, syn::Error>((input.parse()?, input.parse()?)))
+            .transpose()?,
             expr: input.parse()?,
         })
     }
